@@ -176,6 +176,7 @@ def run_case(case, agg, r):
                     w["yielded"] = lines[:6]
                     w["want"] = want[:6]
                     return "by_line-yield-" + ("intersection" if kw.get("if_all_agree") else "union"), w
+    case["_nontrivial"] = n >= 2 or any(ref["lines"] for ref in refs)
     return None, None
 
 
@@ -183,7 +184,7 @@ def run_one(case, agg, r):
     res, w = run_case(case, agg, r)
     shape = "||".join(lang.prog_shape(p) for p in case["members"])
     if res is None:
-        agg.held(shape, True, sample={"members": [lang.program_text(p, "data") for p in case["members"]], "rows": case["rows"][:3]})
+        agg.held(shape, case.pop("_nontrivial", True), sample={"members": [lang.program_text(p, "data") for p in case["members"]], "rows": case["rows"][:3]})
     elif res == "undecided":
         agg.skipped("a member raises standalone")
     else:
